@@ -13,15 +13,15 @@ import (
 )
 
 const (
-	kindEstargz        = "estargz"          // nativeconverter/estargz.LayerConvertFunc(common...)
-	kindEstargzPer     = "estargz-perlayer" // nativeconverter/estargz.LayerConvertWithLayerAndCommonOptsFunc
-	kindZstd           = "zstd"             // nativeconverter/zstdchunked.LayerConvertFuncWithCompressionLevel(level, common...)
-	kindZstdPer        = "zstd-perlayer"    // nativeconverter/zstdchunked.LayerConvertWithLayerOptsFuncWithCompressionLevel
-	kindExtTOC         = "exttoc"           // externaltoc.LayerConvertFunc(common, level)
-	kindExtTOCPer      = "exttoc-perlayer"  // externaltoc.LayerConvertWithLayerAndCommonOptsFunc
-	kindLossless       = "lossless"         // externaltoc.LayerConvertLossLessFunc
-	nMarkers           = 4
-	markerDir          = "c19m"
+	kindEstargz    = "estargz"          // nativeconverter/estargz.LayerConvertFunc(common...)
+	kindEstargzPer = "estargz-perlayer" // nativeconverter/estargz.LayerConvertWithLayerAndCommonOptsFunc
+	kindZstd       = "zstd"             // nativeconverter/zstdchunked.LayerConvertFuncWithCompressionLevel(level, common...)
+	kindZstdPer    = "zstd-perlayer"    // nativeconverter/zstdchunked.LayerConvertWithLayerOptsFuncWithCompressionLevel
+	kindExtTOC     = "exttoc"           // externaltoc.LayerConvertFunc(common, level)
+	kindExtTOCPer  = "exttoc-perlayer"  // externaltoc.LayerConvertWithLayerAndCommonOptsFunc
+	kindLossless   = "lossless"         // externaltoc.LayerConvertLossLessFunc
+	nMarkers       = 4
+	markerDir      = "c19m"
 )
 
 var allKinds = []string{kindEstargz, kindEstargzPer, kindZstd, kindZstdPer, kindExtTOC, kindExtTOCPer, kindLossless}
